@@ -38,11 +38,13 @@ var contentKinds = []string{kText, kImage, kAudio, kEmbText, kEmbBlob}
 var resKinds = []string{kResText, kResBlob}
 
 var (
-	textClassesBase = []string{"empty", "ascii", "cr", "lf", "crlf", "u2028", "astral", "control", "jsonspecial", "bmp", "ws", "64k"}
+	textClassesBase = []string{"empty", "ascii", "cr", "lf", "crlf", "u2028", "astral", "control", "jsonspecial", "bmp", "ws", "64k",
+		"jsonrpc", "jsonfrag", "sse", "wsonly", "punct", "jsonlit"} // the last six: protoTextClasses (proto.go)
 	textClassesBig  = []string{"1MiB", "4MiB", "8MiB"}
 	dataClassesBase = []string{"b64-empty", "b64-small", "b64-64k"}
 	dataClassesBig  = []string{"b64-1MiB", "b64-8MiB"}
-	errClasses      = []string{"empty", "ascii", "cr", "lf", "crlf", "u2028", "astral", "control", "jsonspecial", "bmp", "ws", "64k"}
+	errClasses      = []string{"empty", "ascii", "cr", "lf", "crlf", "u2028", "astral", "control", "jsonspecial", "bmp", "ws", "64k",
+		"jsonrpc", "jsonfrag", "sse", "wsonly", "punct", "jsonlit"}
 )
 
 func isBigClass(c string) bool { return strings.HasSuffix(c, "MiB") }
@@ -74,9 +76,14 @@ type itemSpec struct {
 	Salt  int64  `json:"s"`
 }
 
+// scSpec describes a structured value (structured content or _meta). Mode "" is the generated tree of scNode;
+// the other modes (proto.go) put protocol member names, whole protocol messages, boundary numbers and odd keys in it.
 type scSpec struct {
-	Depth int   `json:"d"`
-	Salt  int64 `json:"s"`
+	Depth int    `json:"d"`
+	Salt  int64  `json:"s"`
+	Mode  string `json:"m,omitempty"` // "" | chain | envelope | numbers | keys | proto
+	Arg   string `json:"a,omitempty"` // chain: the member name
+	Rot   int    `json:"r,omitempty"` // chain: rotation of the value kinds over the levels; envelope: which one
 }
 
 // caseSpec describes one handler return value (or handler error).
@@ -91,6 +98,7 @@ type caseSpec struct {
 	IsError    bool       `json:"is_error,omitempty"`
 	NilContent bool       `json:"nil_content,omitempty"`
 	SC         *scSpec    `json:"sc,omitempty"`
+	Meta       *scSpec    `json:"meta,omitempty"` // _meta of a tool / prompt result
 	Desc       *itemSpec  `json:"desc,omitempty"`
 	Single     bool       `json:"single,omitempty"`
 	Err        *itemSpec  `json:"err,omitempty"`
@@ -117,7 +125,10 @@ func (c *caseSpec) kindSeq() string {
 		s += "+isError"
 	}
 	if c.SC != nil {
-		s += fmt.Sprintf("+sc%d", c.SC.Depth)
+		s += "+sc" + c.SC.tag()
+	}
+	if c.Meta != nil {
+		s += "+meta" + c.Meta.tag()
 	}
 	if c.NilContent {
 		s += "+nil"
@@ -130,14 +141,20 @@ func (c *caseSpec) kindSeq() string {
 
 func (c *caseSpec) classVec() string {
 	var cs []string
+	variant := func(it itemSpec) string { // enumerated look-alike texts are distinct cases
+		if isProtoTextClass(it.Class) && it.Salt >= 0 && it.Salt < int64(len(protoVariants(it.Class))) {
+			return fmt.Sprintf("%s#%d", it.Class, it.Salt)
+		}
+		return it.Class
+	}
 	for _, it := range c.Items {
-		cs = append(cs, it.Class)
+		cs = append(cs, variant(it))
 	}
 	if c.Desc != nil {
 		cs = append(cs, "desc="+c.Desc.Class)
 	}
 	if c.Err != nil {
-		cs = append(cs, c.Err.Class)
+		cs = append(cs, variant(*c.Err))
 	}
 	return strings.Join(cs, ",")
 }
@@ -242,6 +259,8 @@ func buildText(class string, salt int64) string {
 		return largeText(rng, 4<<20)
 	case "8MiB":
 		return largeText(rng, 8<<20)
+	case "jsonrpc", "jsonfrag", "sse", "wsonly", "punct", "jsonlit":
+		return protoText(class, rng, salt)
 	}
 	if ing, ok := ingredients[class]; ok {
 		return mixed(rng, ing)
@@ -283,27 +302,28 @@ var (
 func pick(rng *rand.Rand, l []string) string { return l[rng.Intn(len(l))] }
 
 func buildRC(it itemSpec) mcp.ResourceContents {
-	rng := rand.New(rand.NewSource(it.Salt ^ 0x5eed5eed))
-	uri := fmt.Sprintf(pick(rng, uriForms), rng.Intn(1000))
 	switch it.Kind {
 	case kEmbText, kResText:
-		return mcp.TextResourceContents{URI: uri, MIMEType: pick(rng, textMimes), Text: buildText(it.Class, it.Salt)}
+		uri, mime, _, _ := rcParts(it)
+		return mcp.TextResourceContents{URI: uri, MIMEType: mime, Text: buildText(it.Class, it.Salt)}
 	case kEmbBlob, kResBlob:
-		return mcp.BlobResourceContents{URI: uri, MIMEType: pick(rng, blobMimes), Blob: buildData(it.Class, it.Salt)}
+		uri, mime, _, _ := rcParts(it)
+		return mcp.BlobResourceContents{URI: uri, MIMEType: mime, Blob: buildData(it.Class, it.Salt)}
 	}
 	panic("not a resource kind " + it.Kind)
 }
 
 // buildItem builds a content item with the library's public constructors.
 func buildItem(it itemSpec) mcp.Content {
-	rng := rand.New(rand.NewSource(it.Salt ^ 0x1234abcd))
 	switch it.Kind {
 	case kText:
 		return mcp.NewTextContent(buildText(it.Class, it.Salt))
 	case kImage:
-		return mcp.NewImageContent(buildData(it.Class, it.Salt), pick(rng, imageMimes))
+		mime, _ := mediaMime(it)
+		return mcp.NewImageContent(buildData(it.Class, it.Salt), mime)
 	case kAudio:
-		return mcp.NewAudioContent(buildData(it.Class, it.Salt), pick(rng, audioMimes))
+		mime, _ := mediaMime(it)
+		return mcp.NewAudioContent(buildData(it.Class, it.Salt), mime)
 	case kEmbText, kEmbBlob:
 		return mcp.NewEmbeddedResource(buildRC(it))
 	}
@@ -312,7 +332,7 @@ func buildItem(it itemSpec) mcp.Content {
 
 // ---------- structured content ----------
 
-var scStringClasses = []string{"empty", "ascii", "lf", "crlf", "u2028", "astral", "control", "jsonspecial", "bmp", "ws"}
+var scStringClasses = []string{"empty", "ascii", "lf", "crlf", "u2028", "astral", "control", "jsonspecial", "bmp", "ws", "jsonrpc", "jsonfrag", "sse", "wsonly", "punct", "jsonlit"}
 
 func scLeaf(rng *rand.Rand) interface{} {
 	switch rng.Intn(12) {
@@ -393,6 +413,9 @@ func buildSC(sp *scSpec) interface{} {
 	if sp == nil {
 		return nil
 	}
+	if sp.Mode != "" {
+		return buildProtoSC(sp)
+	}
 	rng := rand.New(rand.NewSource(sp.Salt))
 	if sp.Depth == 0 {
 		return map[string]interface{}{}
@@ -425,6 +448,7 @@ func (c *caseSpec) toolResult() *mcp.CallToolResult {
 	if c.SC != nil {
 		res.StructuredContent = buildSC(c.SC)
 	}
+	res.Meta = buildMeta(c.Meta)
 	return res
 }
 
@@ -443,6 +467,7 @@ func (c *caseSpec) promptResult() *mcp.GetPromptResult {
 	for i, it := range c.Items {
 		res.Messages = append(res.Messages, mcp.PromptMessage{Role: mcp.Role(c.Roles[i]), Content: buildItem(it)})
 	}
+	res.Meta = buildMeta(c.Meta)
 	return res
 }
 
@@ -554,6 +579,9 @@ func buildTable(rng *rand.Rand, tier string, combos int) []caseSpec {
 		}
 	}
 
+	// protocol look-alikes in structured content and _meta (proto.go)
+	b.addProtoCases()
+
 	// handler errors
 	for _, m := range []string{mTool, mPrompt, mRes} {
 		for i, cl := range errClasses {
@@ -583,6 +611,15 @@ func buildTable(rng *rand.Rand, tier string, combos int) []caseSpec {
 			c.IsError = rng.Intn(4) == 0
 			if rng.Intn(5) < 2 {
 				c.SC = &scSpec{Depth: 1 + rng.Intn(5), Salt: rng.Int63()}
+				if rng.Intn(2) == 0 {
+					c.SC.Mode = "proto"
+				}
+			}
+			if rng.Intn(4) == 0 {
+				c.Meta = &scSpec{Depth: 1 + rng.Intn(4), Salt: rng.Int63()}
+				if rng.Intn(2) == 0 {
+					c.Meta.Mode = "proto"
+				}
 			}
 		case x == 2:
 			c.Method = mPrompt
@@ -594,6 +631,12 @@ func buildTable(rng *rand.Rand, tier string, combos int) []caseSpec {
 			}
 			if rng.Intn(10) >= 3 {
 				c.Desc = &itemSpec{Kind: "description", Class: b.smallClass("description", false), Salt: rng.Int63()}
+			}
+			if rng.Intn(4) == 0 {
+				c.Meta = &scSpec{Depth: 1 + rng.Intn(4), Salt: rng.Int63()}
+				if rng.Intn(2) == 0 {
+					c.Meta.Mode = "proto"
+				}
 			}
 		default:
 			c.Method = mRes
@@ -639,8 +682,9 @@ func tableDigest(t []caseSpec) string {
 }
 
 // preview bounds a string for witnesses and samples.
-func preview(s string) string {
-	const n = 96
+func preview(s string) string { return previewN(s, 96) }
+
+func previewN(s string, n int) string {
 	if len(s) <= n {
 		return fmt.Sprintf("%q", s)
 	}
